@@ -68,10 +68,12 @@ def desc_sized(alphabet=NARROW, max_runs=5, max_len=5, min_runs=0, allow_false=T
     return st.one_of(small, small, small, small, small, repeated, many_runs, long_text, huge_runs)
 
 
-def plain_str(max_size=4):
-    """plain str operands: ordinary text, sometimes with a bare ESC (never 'ESC[': fmtstr() parses that by design) or U+009B"""
+def plain_str(max_size=4, csi=True):
+    """plain str operands: ordinary text, sometimes with control characters - a bare ESC, U+009B, or whole escape
+    sequences.  A plain str is plain: its characters are taken as they are (only fmtstr()/from_str parse escape codes)"""
     odd = st.text(alphabet="ab1;mMA\x1b\x9b ", max_size=max(max_size, 5)).map(lambda s: s.replace("\x1b[", "\x1bM"))
-    return st.one_of(text(NARROW, 0, max_size), text(NARROW, 0, max_size), odd)
+    esc = st.sampled_from(["\x1b[31mx\x1b[39m", "a\x1b[1m", "\x1b[0m", "\x1b[2Jz", "\x1b[38;5;196mq"])
+    return st.one_of(text(NARROW, 0, max_size), text(NARROW, 0, max_size), odd, esc if csi else odd)
 
 
 OBS = st.one_of(st.just(0), st.just(0), st.integers(0, 0xFFFF), st.just(0xFFFF))
